@@ -93,20 +93,27 @@ def is_same_value(v: Term, self_t: Term, fname: str) -> bool:
 
 
 def check(model: Model, rep: Report, tier: str):
-    _k1_k2(model, rep)
-    _k3(model, rep)
-    _k4(model, rep)
-    _k5(model, rep)
-    _k6(model, rep)
+    with rep.isolated():
+        _k1_k2(model, rep)
+    with rep.isolated():
+        _k3(model, rep)
+    with rep.isolated():
+        _k4(model, rep)
+    with rep.isolated():
+        _k5(model, rep)
+    with rep.isolated():
+        _k6(model, rep)
     from .c01 import r7
     from .common import share_rule
-    share_rule(rep, model, r7, "C05.K7", "an implicit copy made by repeat() keeps the block's own relative schedule: extend() gives all relation-less heads of "
-               "the appended copy ONE chain link, computed before the loop, over all current leaves (= C01.R7); decomposed_operations hands the "
-               "block link to exactly the heads")
+    with rep.isolated():
+        share_rule(rep, model, r7, "C05.K7", "an implicit copy made by repeat() keeps the block's own relative schedule: extend() gives all relation-less heads of "
+                   "the appended copy ONE chain link, computed before the loop, over all current leaves (= C01.R7); decomposed_operations hands the "
+                   "block link to exactly the heads")
     from .c02 import l7
-    share_rule(rep, model, l7, "C05.K8", "nesting a circuit copies it, whichever way it is handed over: add() routes every sub-circuit (a declarative circuit or a bare structure) "
-               "to the copying path add_sub_circuit before the plain-operation case, and that path nests operation.copy(..), not the object (= C02.L7); otherwise the "
-               "parent and the original share one object and a change to either shows in both")
+    with rep.isolated():
+        share_rule(rep, model, l7, "C05.K8", "nesting a circuit copies it, whichever way it is handed over: add() routes every sub-circuit (a declarative circuit or a bare structure) "
+                   "to the copying path add_sub_circuit before the plain-operation case, and that path nests operation.copy(..), not the object (= C02.L7); otherwise the "
+                   "parent and the original share one object and a change to either shows in both")
 
 
 # ---------------------------------------------------------------------------------------------
